@@ -32,7 +32,7 @@ theorem ins_atTime (x : Sample) (t : Rat) : ∀ l : List Sample,
   | cons y ys ih =>
     unfold ins
     split
-    · by_cases h : x.t = t <;> simp [atTime, List.filter_cons, h]
+    · by_cases h : x.t = t <;> simp [atTime, h]
     · rename_i hle
       have hxy : ¬ (x.t = t ∧ y.t = t) := by
         intro ⟨h1, h2⟩
@@ -49,7 +49,7 @@ theorem sortByTime_atTime (t : Rat) : ∀ l : List Sample, atTime t (sortByTime 
   | nil => rfl
   | cons a l ih =>
     simp only [sortByTime, ins_atTime, ih]
-    by_cases h : a.t = t <;> simp [atTime, List.filter_cons, h]
+    by_cases h : a.t = t <;> simp [atTime, h]
 
 theorem ins_sorted (x : Sample) : ∀ l : List Sample, SortedT l → SortedT (ins x l) := by
   intro l
@@ -115,7 +115,7 @@ theorem keepLast_atTime (t : Rat) : ∀ l : List Sample, SortedT l →
     rw [ih hs']
     by_cases hx : x.t = t
     · have hy : y.t = t := by rw [← h]; exact hx
-      simp [atTime, List.filter_cons, hx, hy, List.getLast?_cons_cons]
+      simp [atTime, hx, hy, List.getLast?_cons_cons]
     · simp [atTime, List.filter_cons, hx]
   | case4 x y l h ih =>
     intro hs
@@ -139,7 +139,7 @@ theorem keepLast_atTime (t : Rat) : ∀ l : List Sample, SortedT l →
       have ih' := ih hs'
       rw [hnone] at ih'
       simp only [atTime] at ih' hnone ⊢
-      simp [List.filter_cons, hx, ih', hnone]
+      simp [hx, ih', hnone]
     · have ih' := ih hs'
       simp only [atTime] at ih' ⊢
       simp [List.filter_cons, hx, ih']
